@@ -17,7 +17,11 @@ B = 7
 def on_curve(pt, p=P, b=B):
     if pt is None:
         return True
+    if not (isinstance(pt, (tuple, list)) and len(pt) == 2):
+        return False
     x, y = pt
+    if not (isinstance(x, int) and isinstance(y, int)):
+        return False
     return 0 <= x < p and 0 <= y < p and (y * y - x * x * x - b) % p == 0
 
 
